@@ -5,7 +5,7 @@
    (Gen/NbConfig.v) and the proofs need its facts c_dict_strict = true, default predicate = strict_equals. *)
 From Coq Require Import List NArith.
 From NB Require Import Base.Res Base.Json Base.PyStr Diff.DiffFormat Diff.Patch Diff.GenericDiff Diff.Wf
-     Diff.StringProofs Diff.StringMaster Diff.MasterProofs Diff.C02Proofs Gen.NbConfig.
+     Diff.StringProofs Diff.StringMaster Diff.MasterProofs Diff.SpecProofs Diff.C02Proofs Gen.NbConfig.
 Import ListNotations.
 
 (* patching a with diff(a, b) gives exactly b (strict JSON equality: bool/int/float distinct) *)
@@ -34,3 +34,18 @@ Print Assumptions string_diff_patch_roundtrip.
 Theorem splitlines_partition : forall s, concat (splitlines s) = s.
 Proof. exact splitlines_concat. Qed.
 Print Assumptions splitlines_partition.
+
+(* patch is the documented meaning of the format: on EVERY well-formed diff (not only those nbdime
+   produces) nbdime's cursor-based patch -- including the flattening of line diffs to character
+   diffs -- computes what the position-wise reading of the format (Wf.spec_patch) denotes *)
+Theorem patch_is_documented_meaning : forall f a d, wfj a = true -> wf_diff f a d = true ->
+  forall m, f <= m -> patch m a d = Ok (spec_patch f a d).
+Proof. exact patch_is_spec. Qed.
+Print Assumptions patch_is_documented_meaning.
+
+(* hence an independent implementation of the documented format obtains b from diff(a, b) *)
+Theorem generic_diff_denotes_target_by_documented_meaning : forall O n a b,
+  opcodes_valid O -> 2 * depth a < n -> wfj a = true -> wfj b = true -> same_container a b ->
+  exists d, diff_default O generic_config n a b = Ok d /\ forall f, depth a < f -> check_diff f a b d = true.
+Proof. exact generic_diff_denotes_target. Qed.
+Print Assumptions generic_diff_denotes_target_by_documented_meaning.
